@@ -26,6 +26,18 @@ fn main() {
         "attrs" => codec::main_attrs(&args[2..]),
         "builder" => builder::main_builder(&args[2..]),
         "xor" => codec::main_xor(&args[2..]),
+        "tracetest" => {
+            let subscriber = tracing_subscriber::fmt().with_max_level(tracing::Level::TRACE).with_writer(std::io::stderr).finish();
+            let dispatch = tracing::Dispatch::new(subscriber);
+            let b = [0u8, 1, 0, 1, 0x21, 0x12, 0xa4, 0x42, 1, 1, 1, 1, 1, 1, 1, 1, 1, 1, 1, 1, 7];
+            let _ = stun_types::message::Message::from_bytes(&b);
+            tracing::dispatcher::with_default(&dispatch, || {
+                tracing::callsite::rebuild_interest_cache();
+                tracing::warn!("harness event");
+                let r = stun_types::message::Message::from_bytes(&b);
+                eprintln!("traced result {:?}", r.is_ok());
+            });
+        }
         "compr" => {
             use std::io::Write;
             let mut out = std::io::BufWriter::new(std::fs::File::create(&args[2]).expect("out"));
